@@ -535,75 +535,7 @@ func sizeFamily(r *Rng, g *richGen, thorough bool) {
 				for _, many := range []bool{false, true} {
 					for _, pos := range []string{"only", "first", "middle", "last", "all"} {
 						idx++
-						// body of an envelope: a padding record, and either a few
-						// records of any type or many records of 150..260 octets
-						body := func(sized bool) []rrd {
-							e := []rrd{g.pad()}
-							if sized && many {
-								for tot := 400; tot+300 < L; {
-									n := 150 + r.Intn(111)
-									e = append(e, Psz(g.nextPid(), n))
-									tot += n
-								}
-							} else {
-								for i := r.Intn(3); i > 0; i-- {
-									e = append(e, g.any(types))
-								}
-							}
-							return e
-						}
-						var envs [][]rrd
-						var at []int // envelopes to be sized
-						ixDiff := kind == "ixfr" && idx%2 == 0
-						open := []rrd{S(5)}
-						if ixDiff {
-							open = []rrd{S(5), S(3)}
-						}
-						switch pos {
-						case "only":
-							e := append(append([]rrd{}, open...), body(true)...)
-							if ixDiff {
-								e = append(e, S(5))
-								e = append(e, g.any(types))
-							}
-							envs = [][]rrd{append(e, S(5))}
-							at = []int{0}
-						default:
-							sz := map[string][]int{"first": {0}, "middle": {1}, "last": {2}, "all": {0, 1, 2}}[pos]
-							is := func(k int) bool {
-								for _, x := range sz {
-									if x == k {
-										return true
-									}
-								}
-								return false
-							}
-							e0 := append(append([]rrd{}, open...), body(is(0))...)
-							e1 := body(is(1))
-							var e2 []rrd
-							if ixDiff {
-								e2 = append([]rrd{S(5)}, body(is(2))...)
-							} else {
-								e2 = body(is(2))
-							}
-							envs = [][]rrd{e0, e1, append(e2, S(5))}
-							at = sz
-						}
-						c := base(kind, tsig, "size-"+pos, r)
-						c.Qser = 3
-						c.Compress = idx%4 == 3
-						ch := append([]int{L - 1, L, L + 1, L + 2, L + 3}, chunkChoices...)
-						c.Chunk = ch[idx%len(ch)]
-						c.Reads = cloneReads(goodReads(c, envs, tsig))
-						if tsig && idx%3 == 0 {
-							for i := range c.Reads {
-								c.Reads[i].Sig.Ref = true
-							}
-						}
-						ok := true
-						for _, k := range at {
-							ok = ok && sizeTo(&c, k, L)
-						}
+						c, envs, at, ok := sizedCase(r, g, types, idx, L, kind, tsig, many, pos, "size-"+pos)
 						if !ok {
 							st["size_out_of_reach"]++
 							continue
@@ -619,4 +551,83 @@ func sizeFamily(r *Rng, g *richGen, thorough bool) {
 			}
 		}
 	}
+}
+
+// sizedCase: a transfer of one envelope (pos "only") or three in which the only /
+// first / middle / last / every envelope is exactly L octets long (the message,
+// without any framing); at = the envelopes that were sized; ok = false when L is
+// out of reach of the padding.  many: the sized envelope is made of some hundred
+// records instead of one large one.
+func sizedCase(r *Rng, g *richGen, types []uint16, idx, L int, kind string, tsig, many bool, pos, fam string) (c xcase, envs [][]rrd, at []int, ok bool) {
+	// body of an envelope: a padding record, and either a few
+	// records of any type or many records of 150..260 octets
+	body := func(sized bool) []rrd {
+		e := []rrd{g.pad()}
+		if sized && many {
+			for tot := 400; tot+300 < L; {
+				n := 150 + r.Intn(111)
+				e = append(e, Psz(g.nextPid(), n))
+				tot += n
+			}
+		} else {
+			for i := r.Intn(3); i > 0; i-- {
+				e = append(e, g.any(types))
+			}
+		}
+		return e
+	}
+	ixDiff := kind == "ixfr" && idx%2 == 0
+	open := []rrd{S(5)}
+	if ixDiff {
+		open = []rrd{S(5), S(3)}
+	}
+	switch pos {
+	case "only":
+		e := append(append([]rrd{}, open...), body(true)...)
+		if ixDiff {
+			e = append(e, S(5))
+			e = append(e, g.any(types))
+		}
+		envs = [][]rrd{append(e, S(5))}
+		at = []int{0}
+	default:
+		sz := map[string][]int{"first": {0}, "middle": {1}, "last": {2}, "all": {0, 1, 2}}[pos]
+		is := func(k int) bool {
+			for _, x := range sz {
+				if x == k {
+					return true
+				}
+			}
+			return false
+		}
+		e0 := append(append([]rrd{}, open...), body(is(0))...)
+		e1 := body(is(1))
+		var e2 []rrd
+		if ixDiff {
+			e2 = append([]rrd{S(5)}, body(is(2))...)
+		} else {
+			e2 = body(is(2))
+		}
+		envs = [][]rrd{e0, e1, append(e2, S(5))}
+		at = sz
+	}
+	c = base(kind, tsig, fam, r)
+	c.Qser = 3
+	c.Compress = idx%4 == 3
+	ch := append([]int{L - 1, L, L + 1, L + 2, L + 3}, chunkChoices...)
+	c.Chunk = ch[idx%len(ch)]
+	c.Reads = cloneReads(goodReads(c, envs, tsig))
+	if tsig && idx%3 == 0 {
+		for i := range c.Reads {
+			c.Reads[i].Sig.Ref = true
+		}
+	}
+	ok = true
+	for _, k := range at {
+		ok = ok && sizeTo(&c, k, L)
+	}
+	for k := range envs {
+		envs[k] = c.Reads[k].RRs
+	}
+	return c, envs, at, ok
 }
